@@ -6,6 +6,7 @@ import (
 	"go/types"
 	"sort"
 	"strings"
+	"time"
 
 	"golang.org/x/tools/go/ssa"
 
@@ -487,6 +488,23 @@ func (i *interpreter) textOf(itf iface) (string, bool) {
 // main goroutine through abort.
 func (i *interpreter) spawn(fr *frame, instr *ssa.Go, fn value, args []value) {
 	i.threads++
+	if i.threads == 1 {
+		// watchdog: a goroutine that blocks outside the modelled primitives
+		// (an unmodelled channel protocol, sync.Cond, ...) would leave the
+		// scheduler waiting forever; end such a run as an engine error
+		go func() {
+			t := time.NewTimer(120 * time.Second)
+			defer t.Stop()
+			select {
+			case <-i.abort:
+			case <-t.C:
+				i.abortOnce.Do(func() {
+					i.abortVal = engineError{msg: "thread-mode run exceeded 120 s of wall clock: a goroutine is blocked outside the modelled synchronisation primitives"}
+					close(i.abort)
+				})
+			}
+		}()
+	}
 	if i.threads > 64 {
 		panic(engineErrorf("more than 64 goroutines spawned (%s)", i.site(instr)))
 	}
